@@ -205,6 +205,24 @@ fn hidden_const_cases(out: &mut Vec<Case>) {
     }
 }
 
+/// The same designator name used by two declarations in a row: each use is judged on its own
+/// (a usable const gives both their width, an unusable one is diagnosed both times and the
+/// second declaration does not silently get another width either).
+fn repeated_designator_cases(out: &mut Vec<Case>) {
+    let pairs = [("int[n] x;", "uint[n] y;"), ("bit[n] x;", "bit[n] y;"), ("qubit[n] x;", "int[n] y;"), ("float[n] x;", "angle[n] y;"), ("int[n] x;", "if (true) { int[n] y; }"), ("complex[float[n]] x;", "bit[n] y;")];
+    for (tag, pre) in [("nonliteral", "const int n = 2 * 4;"), ("negative", "const int n = -3;"), ("float", "const float n = 3.0;"), ("nonconst", "int n = 3;"), ("undeclared", ""), ("pi", "const float n = pi;"), ("toolarge", "const int n = 4294967296;")] {
+        for (d1, d2) in pairs {
+            out.push(Case { text: format!("{} {} {}", pre, d1, d2), tag: format!("twice-bad/{}", tag), expect: vec![], bad_width: Some(("y".into(), vec![0, 1, 3, 8])), gates: None, def_ret: None, nontrivial: true });
+        }
+    }
+    for w in [1u32, 8, 64] {
+        for ct in ["int", "uint[64]"] {
+            out.push(Case { text: format!("const {} n = {}; int[n] x; uint[n] y; bit[n] z;", ct, w), tag: format!("twice-good/{}", ct), expect: vec![("x".into(), Type::Int(Some(w), IsConst::False)), ("y".into(), Type::UInt(Some(w), IsConst::False)), ("z".into(), Type::BitArray(ArrayDims::D1(w as usize), IsConst::False))], bad_width: None, gates: None, def_ret: None, nontrivial: true });
+            out.push(Case { text: format!("const {} n = {}; int[n] x; if (true) {{ const int n = {}; int[n] y; }} bit[n] z;", ct, w, w + 8), tag: format!("twice-good-shadow/{}", ct), expect: vec![("x".into(), Type::Int(Some(w), IsConst::False)), ("y".into(), Type::Int(Some(w + 8), IsConst::False)), ("z".into(), Type::BitArray(ArrayDims::D1(w as usize), IsConst::False))], bad_width: None, gates: None, def_ret: None, nontrivial: true });
+        }
+    }
+}
+
 /// Widths and lengths written in every radix and with underscores and leading zeros.
 fn radix_width_cases(out: &mut Vec<Case>) {
     for w in [1u32, 8, 9, 10, 15, 16, 17, 31, 32, 64, 100, 255] {
@@ -437,6 +455,10 @@ pub fn check(c: &Case, ctx: &mut Ctx) {
     }
     if let Some((name, wrong)) = &c.bad_width {
         let diagnosed = kinds.iter().any(|k| k.contains("Designator") || k.contains("ConstInteger") || k.contains("UndefVar") || k.contains("IncompatibleTypes"));
+        let ndiag = kinds.iter().filter(|k| k.contains("Designator") || k.contains("ConstInteger") || k.contains("UndefVar") || k.contains("IncompatibleTypes")).count();
+        if c.tag.starts_with("twice-bad") && diagnosed && ndiag < 2 {
+            fail(ctx, "second designator not diagnosed".into(), format!("two declarations use the unusable designator, {} diagnostic(s) about it are reported (diagnostics: {:?})", ndiag, kinds));
+        }
         if !diagnosed {
             fail(ctx, "designator not diagnosed".into(), format!("the width is not a representable constant integer, yet no diagnostic about it is reported (diagnostics: {:?})", kinds));
         }
@@ -513,6 +535,8 @@ pub fn spaces(tier: Tier, _seed: u64) -> Vec<Box<dyn Space>> {
     shadowed_const_cases(&mut shadowed);
     let mut hidden = Vec::new();
     hidden_const_cases(&mut hidden);
+    let mut repeated = Vec::new();
+    repeated_designator_cases(&mut repeated);
     let mut radix = Vec::new();
     radix_width_cases(&mut radix);
     let mut sig = Vec::new();
@@ -523,6 +547,7 @@ pub fn spaces(tier: Tier, _seed: u64) -> Vec<Box<dyn Space>> {
         Box::new(Decls { family: "bad-width", cases: bad }),
         Box::new(Decls { family: "shadowed-const", cases: shadowed }),
         Box::new(Decls { family: "hidden-const", cases: hidden }),
+        Box::new(Decls { family: "repeated-designator", cases: repeated }),
         Box::new(Decls { family: "radix-width", cases: radix }),
         Box::new(Decls { family: "signatures", cases: sig }),
     ]
